@@ -2,6 +2,7 @@
 global numpy / random functions; generator state right after construction."""
 import copy
 import random
+import os
 import traceback
 import warnings
 
@@ -21,7 +22,7 @@ TRIPS = []
 
 def pkg_frame():
     """innermost stack frame that belongs to the package under test, or None (the harness itself may use the global generators)"""
-    fr = [f for f in traceback.extract_stack(limit=12) if f.filename.startswith("/repo/src/quansino")]
+    fr = [f for f in traceback.extract_stack(limit=12) if f.filename.startswith(os.environ.get("QV_REPO", "/repo") + "/src/quansino")]
     return f"{fr[-1].filename}:{fr[-1].lineno} in {fr[-1].name}" if fr else None
 NP_FUNCS = ["random", "rand", "randn", "uniform", "normal", "standard_normal", "choice", "permutation", "shuffle", "randint", "random_sample", "sample"]
 PY_FUNCS = ["random", "uniform", "choice", "shuffle", "randint", "gauss", "sample", "randrange", "choices"]
